@@ -276,8 +276,41 @@ def bi_write_char_default(eng, st, args, d, r, callee=''):
     if b: return b(eng, st, [w, text], d, r, callee='write_str')
     raise Unsupported('write_char on ' + str(head))
 
+def bi_str_trim_matches(which):
+    def fn(eng, st, args, d, r, callee=''):
+        s = sval(args[0]); b = args[1]
+        pat = chr(b.v) if isinstance(b, S) else sval(b)
+        if not pat: return ('value', PyStr(s))
+        if which in ('end', 'both'):
+            while s.endswith(pat): s = s[:-len(pat)]
+        if which in ('start', 'both'):
+            while s.startswith(pat): s = s[len(pat):]
+        return ('value', PyStr(s))
+    return fn
+def bi_str_strip(which):
+    def fn(eng, st, args, d, r, callee=''):
+        s = sval(args[0]); b = args[1]
+        pat = chr(b.v) if isinstance(b, S) else sval(b)
+        ok = s.startswith(pat) if which == 'prefix' else s.endswith(pat)
+        if not ok: return ('value', En('Option', S(0, 'isize'), {0: ()}))
+        rest = s[len(pat):] if which == 'prefix' else s[:len(s) - len(pat)]
+        return ('value', En('Option', S(1, 'isize'), {1: (PyStr(rest),)}))
+    return fn
+def bi_str_rfind(eng, st, args, d, r, callee=''):
+    s = sval(args[0]); b = args[1]
+    pat = chr(b.v) if isinstance(b, S) else sval(b)
+    k = s.rfind(pat)
+    if k < 0: return ('value', En('Option', S(0, 'isize'), {0: ()}))
+    return ('value', En('Option', S(1, 'isize'), {1: (S(len(s[:k].encode()), 'usize'),)}))
+def bi_str_split_at(eng, st, args, d, r, callee=''):
+    s = sval(args[0]).encode(); k = args[1].v
+    return ('value', Agg('tuple', (PyStr(s[:k].decode()), PyStr(s[k:].decode()))))
+
 def install():
     B = E.BUILTIN_METHODS
+    B[('str', 'trim_end_matches')] = bi_str_trim_matches('end'); B[('str', 'trim_start_matches')] = bi_str_trim_matches('start'); B[('str', 'trim_matches')] = bi_str_trim_matches('both')
+    B[('str', 'strip_prefix')] = bi_str_strip('prefix'); B[('str', 'strip_suffix')] = bi_str_strip('suffix'); B[('str', 'rfind')] = bi_str_rfind
+    B[('str', 'split_at')] = bi_str_split_at
     B[('String', 'new')] = bi_string_new; B[('String', 'push_str')] = bi_string_push_str; B[('String', 'push')] = bi_string_push_str
     B[('String', 'write_str')] = bi_string_push_str; B[('String', 'write_char')] = bi_string_push_str
     B[('String', 'deref')] = bi_string_deref; B[('String', 'as_str')] = bi_string_deref; B[('String', 'len')] = bi_string_len
